@@ -226,6 +226,11 @@ static void sub_transpose_adjoint() {
           bool ok = wf.empty() && T->nnz == S.nnz(); std::map<std::pair<size_t, size_t>, Bk> D; for (size_t i = 0; i < n; ++i) for (auto j = S.ptr[i]; j < S.ptr[i + 1]; ++j) D[{i, (size_t)S.col[j]}] = v[j];
           for (size_t i = 0; ok && i < m; ++i) for (auto j = T->ptr[i]; j < T->ptr[i + 1]; ++j) { auto it = D.find({(size_t)T->col[j], i}); if (it == D.end()) { ok = false; break; } for (int p = 0; p < 2; ++p) for (int q = 0; q < 2; ++q) if (T->val[j](p, q) != it->second(q, p)) ok = false; }
           c.check(ok, "transpose_block:value", "transpose of a block-valued matrix does not transpose the blocks"); }
+        { typedef std::complex<double> Z; typedef static_matrix<Z, 2, 2> Bk; std::vector<Bk> v(S.nnz()); for (auto &b : v) for (int k = 0; k < 4; ++k) b(k) = Z((double)r.range(-4, 4), (double)r.range(-4, 4));
+          backend::crs<Bk> A(n, m, S.ptr, S.col, v); auto T = backend::transpose(A); std::string wf = wellformed(*T, m, n, true); c.check(wf.empty(), "transpose_complex_block:malformed:" + wf, "malformed");
+          bool ok = wf.empty() && T->nnz == S.nnz(); std::map<std::pair<size_t, size_t>, Bk> D; for (size_t i = 0; i < n; ++i) for (auto j = S.ptr[i]; j < S.ptr[i + 1]; ++j) D[{i, (size_t)S.col[j]}] = v[j];
+          for (size_t i = 0; ok && i < m; ++i) for (auto j = T->ptr[i]; j < T->ptr[i + 1]; ++j) { auto it = D.find({(size_t)T->col[j], i}); if (it == D.end()) { ok = false; break; } for (int p = 0; p < 2; ++p) for (int q = 0; q < 2; ++q) if (T->val[j](p, q) != std::conj(it->second(q, p))) ok = false; }
+          c.check(ok, "transpose_complex_block:value", "transpose of a complex block-valued matrix is not the conjugate transpose of the blocks"); }
         if (S.nnz()) c.nontrivial();
     }
 }
@@ -296,6 +301,29 @@ static void sub_spectral() {
     }
 }
 
+// Gershgorin bound for block-valued matrices (2x2 blocks): the estimate must be an upper bound of the spectral radius of the
+// equivalent scalar matrix (resp. of D^-1 A with the block diagonal D when scaled), for ill-conditioned diagonal blocks too.
+static void sub_spectral_block() {
+    typedef static_matrix<double, 2, 2> Bk; long N = vf::tier(60, 800);
+    for (long idx = 0; idx < N; ++idx) {
+        if (!vf::selected("spectral_radius_block", idx)) continue;
+        Rng r(vf::case_seed("spectral_radius_block", idx)); size_t n = r.range(2, 12);
+        Csr<double> P = vf::random_dd(n, r.uni(0.2, 0.6), r, true); std::vector<Bk> v(P.nnz()); double aniso = r.logu(1.0, 200.0);
+        for (size_t i = 0; i < n; ++i) for (auto j = P.ptr[i]; j < P.ptr[i + 1]; ++j) { Bk b; if (P.col[j] == (ptrdiff_t)i) { b(0, 0) = r.uni(1, 2) * aniso; b(1, 1) = r.uni(1, 2); b(0, 1) = r.uni(-0.3, 0.3); b(1, 0) = r.uni(-0.3, 0.3); } else for (int q = 0; q < 4; ++q) b(q) = r.uni(-1, 1) * (q == 3 ? 1.0 : 0.3); v[j] = b; }
+        backend::crs<Bk> a(n, n, P.ptr, P.col, v);
+        Case c("spectral_radius_block", idx, J().n("n", n).n("nnz", P.nnz()).n("aniso", aniso));
+        vf::LD D = vf::LD::Zero(2 * n, 2 * n), Dg = vf::LD::Zero(2 * n, 2 * n);
+        for (size_t i = 0; i < n; ++i) for (auto j = P.ptr[i]; j < P.ptr[i + 1]; ++j) for (int p = 0; p < 2; ++p) for (int q = 0; q < 2; ++q) { D(2 * i + p, 2 * P.col[j] + q) = v[j](p, q); if (P.col[j] == (ptrdiff_t)i) Dg(2 * i + p, 2 * i + q) = v[j](p, q); }
+        for (int scale = 0; scale < 2; ++scale) {
+            vf::LD As = D; if (scale) { vf::LD Di = Dg.inverse(); As = Di * D; }
+            double rho = vf::spectral_radius(As); double g = scale ? backend::spectral_radius<true>(a, 0) : backend::spectral_radius<false>(a, 0);
+            c.check(std::isfinite(g) && g >= rho * (1 - 1e-10), scale ? "gershgorin_scaled(block):bound" : "gershgorin(block):bound", "Gershgorin estimate of a block-valued matrix is below the true spectral radius", J().n("got", g).n("rho", rho).n("aniso", aniso));
+            vf::obs_min(scale ? "min_gershgorin_over_rho_block_scaled" : "min_gershgorin_over_rho_block", g / rho);
+        }
+        c.nontrivial();
+    }
+}
+
 int main(int argc, char **argv) {
     vf::init(argc, argv);
     vf::obs_add("threads_seen", std::to_string(omp_get_max_threads()));
@@ -311,6 +339,7 @@ int main(int argc, char **argv) {
         if (vf::sub_enabled("transpose_adjoint")) sub_transpose_adjoint();
         if (vf::sub_enabled("pointwise_exhaustive") || vf::sub_enabled("pointwise_random")) sub_pointwise();
         if (vf::sub_enabled("spectral_radius")) sub_spectral();
+        if (vf::sub_enabled("spectral_radius_block")) sub_spectral_block();
     };
     { int team = 0;
 #pragma omp parallel
